@@ -211,6 +211,19 @@ func runCase(env *vlib.Env, idx int, rep *vlib.Reporter) {
 	kcfg := dbfix.KeyperConfig(1, kp.Keys[0], kp.Keys[0], make([]byte, 32), 10)
 	kcfg.HTTPEnabled = true
 	kcfg.HTTPReadOnly = !write
+	// another API server of the opposite mode is set up first in the same process (a second keyper
+	// instance, an earlier configuration): nothing of it may carry over
+	other := *kcfg
+	other.HTTPReadOnly = write
+	otherSrv := kprapi.NewHTTPService(node.Pool, &other, &dbfix.RecMessaging{})
+	orr := otherSrv.VerifRouter()
+	{
+		rec := httptest.NewRecorder()
+		orr.ServeHTTP(rec, httptest.NewRequest("GET", "http://keyper.test/v1/ping", nil))
+		rec = httptest.NewRecorder()
+		orr.ServeHTTP(rec, httptest.NewRequest("GET", "http://keyper.test/v1/eons", nil))
+		rep.Obs("servers_of_the_opposite_mode_set_up_first", 1)
+	}
 	srv := kprapi.NewHTTPService(node.Pool, kcfg, &dbfix.RecMessaging{})
 	router := srv.VerifRouter()
 	var triggers, shutdowns atomic.Int64
